@@ -149,6 +149,7 @@ fn run_one<const N: usize, P: Pad>(
     vc0: u32,
     fseed: u64,
 ) -> (bool, u32) {
+    let lean = ctx.args.flag("lean");
     ledger_reset();
     let mut vcv = vc0;
     let vc = &mut vcv;
@@ -165,18 +166,18 @@ fn run_one<const N: usize, P: Pad>(
     match act {
         Act::Op(op) => {
             let mut env = Env::<N, P>::new(*vc);
-            let out = step(&mut h, &mut model, op, &mut env, ctx, &MonCfg::FULL, Some(fault), Some(&obs));
+            let out = step(&mut h, &mut model, op, &mut env, ctx, &MonCfg::main(lean), Some(fault), Some(&obs));
             let fired = out.injected;
             // the buffer must keep behaving normally
             let prop: &'static str = if fault.0 == FpKind::Drop { "C05" } else { "C06" };
             if fired {
                 ctx.attribute = Some(prop);
             }
-            for f in FIXED_FOLLOWUPS.iter() {
-                step(&mut h, &mut model, f, &mut env, ctx, &MonCfg::FULL, None, None);
+            for f in FIXED_FOLLOWUPS.iter().take(if lean { 4 } else { 8 }) {
+                step(&mut h, &mut model, f, &mut env, ctx, &MonCfg::main(lean), None, None);
             }
             let mut rng = Rng::new(fseed);
-            for _ in 0..8 {
+            for _ in 0..(if lean { 2 } else { 8 }) {
                 let f = gen_op(&mut rng, N, model.len(), false);
                 step(&mut h, &mut model, &f, &mut env, ctx, &MonCfg::LIGHT, None, None);
             }
@@ -206,10 +207,10 @@ pub fn faults<const N: usize, P: Pad>(ctx: &mut Ctx) {
             for len in 0..=N {
                 for act in fault_acts(N, len, kind, thorough) {
                     let ad = format!("{:?}", act);
-                    let key = hash64(&format!("{}|{}|{}|{}|{}|{:?}", N, P::NAME, start, len, ad, kind));
-                    if !ctx.mine(key) {
+                    if !ctx.mine_next() {
                         continue;
                     }
+                    let key = hash64(&format!("{}|{}|{}|{}|{}|{:?}", N, P::NAME, start, len, ad, kind));
                     for &route in &routes {
                         if N == 0 && route != 0 && route != 3 {
                             continue;
@@ -272,7 +273,7 @@ fn ctor_faults<const N: usize, P: Pad>(ctx: &mut Ctx, kinds: &[FpKind]) {
         for_m!(M, {
             if M <= 2 * N + 1 {
                 let key = hash64(&format!("from_array|{}|{}|{}", N, P::NAME, M));
-                if ctx.mine(key) {
+                if ctx.mine_next() {
                     let mut count = 0;
                     if ctx.begin_case(|| format!("faults N={} T={} from_array M={} kind=drop k=0(dry)", N, P::NAME, M)) {
                         ledger_reset();
@@ -300,10 +301,10 @@ fn ctor_faults<const N: usize, P: Pad>(ctx: &mut Ctx, kinds: &[FpKind]) {
             continue;
         }
         for k_items in 0..=2 * N + 1 {
-            let key = hash64(&format!("from_iter|{}|{}|{}|{:?}", N, P::NAME, k_items, kind));
-            if !ctx.mine(key) {
+            if !ctx.mine_next() {
                 continue;
             }
+            let key = hash64(&format!("from_iter|{}|{}|{}|{:?}", N, P::NAME, k_items, kind));
             let mut count = 0;
             if ctx.begin_case(|| format!("faults N={} T={} from_iter items={} kind={} k=0(dry)", N, P::NAME, k_items, kind.name())) {
                 ledger_reset();
